@@ -87,6 +87,21 @@ Section Top.
     apply (inv_run _ _ _ _ _ _ _ sched _ s (init_inv_locks l0 m0 progs H1 Hw) Hr).
   Qed.
 
+  (* from every reachable state the remaining calls can all be completed (no deadlock on the way) *)
+  Theorem completion progs (l0 : Local) (m0 : loc -> Value) sched (s : state) :
+    locks_ok M = true -> wf_progs progs ->
+    (forall t, sends_ready t = true) ->
+    rn (init_state l0 m0 progs) sched = Some s ->
+    exists sched' s', rn s sched' = Some s' /\ finished s'.
+  Proof.
+    intros H1 Hw Hs Hr.
+    assert (Hi : inv (mt_guard M) true s)
+      by (apply (inv_run _ _ _ _ _ _ _ sched _ s (init_inv_locks l0 m0 progs H1 Hw) Hr)).
+    destruct (can_complete begin_local rd_eff wr_eff send_val sends_ready (mt_guard M) true _ s eq_refl Hi Hs)
+      as [sched' [s' [Ha [Hb _]]]].
+    exists sched', s'. auto.
+  Qed.
+
   Theorem options_untouched_dynamic progs (l0 : Local) (m0 : loc -> Value) sched (s : state) :
     locks_ok M = true -> params_ok M = true -> wf_progs progs ->
     rn (init_state l0 m0 progs) sched = Some s ->
